@@ -5,6 +5,7 @@
 package conc
 
 import (
+	"crypto/rand"
 	"encoding/binary"
 	"math/big"
 	"strings"
@@ -143,8 +144,24 @@ func errByte(err error) byte {
 	return 0
 }
 
+// constReader is installed as crypto/rand.Reader for the whole process by this package: Random then has a defined
+// "result when run alone" (the scalar of the constant block), and is race-free and global-free in a correct
+// implementation - it reads into memory the caller owns.
+type constReader struct{}
+
+func (constReader) Read(p []byte) (int, error) {
+	for i := range p {
+		p[i] = 0x42
+	}
+
+	return len(p), nil
+}
+
+func init() { rand.Reader = constReader{} }
+
 // Ops is the alphabet.
 var Ops = []Op{
+	{"Scalar.Random", func(sh *Shared) []byte { return rawScalar(big.NewInt(9)).Random().Encode() }},
 	{"HashToScalar(M,D[:18])", func(sh *Shared) []byte { return secp256k1.HashToScalar(sh.M, sh.D18).Encode() }},
 	{"HashToScalar(M,D[:20])", func(sh *Shared) []byte { return secp256k1.HashToScalar(sh.M, sh.D20).Encode() }},
 	{"HashToScalar(M,Dlong)", func(sh *Shared) []byte { return secp256k1.HashToScalar(sh.M, sh.DLong).Encode() }},
